@@ -77,8 +77,6 @@ fn remove_case(reset: bool) {
     assert!(c1.get() == 2, "C10 handles to a removed child stay usable");
     let c2 = v.get_metric_with_label_values(&[sa]).unwrap();
     assert!(c2.get() == 0, "C10 a child requested again after removal starts from zero");
-    assert!(v.remove_label_values(&[sa]).is_ok());
-    assert!(v.remove_label_values(&[sa]).is_err(), "C10 removing a missing child is an error");
     std::mem::forget((c1, c2));
     std::mem::forget(v);
 }
@@ -143,10 +141,32 @@ pub fn c10_lookup_vs_remove_and_recreate() {
     std::mem::forget(v);
 }
 
+/// Removing label values that have no child is an error and changes nothing.
+#[cfg_attr(kani, kani::proof, kani::unwind(5),
+    kani::stub(std::fmt::format, fmt_stub),
+    kani::stub(<crate::metrics::Opts as crate::desc::Describer>::describe, describe_x),
+    kani::stub(<fnv::FnvHasher as std::hash::Hasher>::write, fnv_write_injective),
+    kani::stub(<[crate::proto::LabelPair]>::sort, sort_stub),
+    kani::stub(parking_lot::RawRwLock::lock_exclusive_slow, pl_lock_exclusive_slow),
+    kani::stub(parking_lot::RawRwLock::lock_shared_slow, pl_lock_shared_slow),
+    kani::stub(parking_lot::RawRwLock::unlock_exclusive_slow, pl_unlock_exclusive_slow),
+    kani::stub(parking_lot::RawRwLock::unlock_shared_slow, pl_unlock_shared_slow))]
+pub fn c10_remove_missing_child_is_an_error() {
+    let v = vec1();
+    let a = [byte()];
+    let sa = unsafe { std::str::from_utf8_unchecked(&a) };
+    let r = v.remove_label_values(&[sa]);
+    assert!(r.is_err(), "C10 removing a missing child is an error");
+    assert!(v.v.children.read().len() == 0);
+    std::mem::forget(r);
+    std::mem::forget(v);
+}
+
 pub fn dispatch(name: &str) -> Option<fn()> {
     Some(match name {
         "c10_racing_first_requests_share_the_child" => c10_racing_first_requests_share_the_child,
         "c10_remove_then_recreate_starts_from_zero" => c10_remove_then_recreate_starts_from_zero,
+        "c10_remove_missing_child_is_an_error" => c10_remove_missing_child_is_an_error,
         "c10_reset_then_recreate_starts_from_zero" => c10_reset_then_recreate_starts_from_zero,
         "c10_lookup_vs_remove_and_recreate" => c10_lookup_vs_remove_and_recreate,
         _ => return None,
